@@ -148,7 +148,8 @@ def same(a, b, dtype=True, rtol=0, atol=0, equal_nan=True):
         b = np.asarray(b)
         if a.shape != b.shape:
             return 'shape %s != expected %s' % (a.shape, b.shape)
-        if dtype and a.dtype != b.dtype:
+        if dtype and a.dtype != b.dtype and a.dtype.newbyteorder('=') != b.dtype.newbyteorder('='):
+            # (byte order is not part of the value: np.concatenate of big-endian parts is native too)
             return 'dtype %s != expected %s' % (a.dtype, b.dtype)
         if a.size == 0:
             return None
